@@ -62,8 +62,26 @@ def generate(rng, tier):
     # LCD off: nothing may be requested
     cases.append(('off', ['ppu.w 0x41 0x78', 'ppu.tick 5000', 'ppu.w 0x40 0x11', 'ppu.tick 40000',
                           'ppu.w 0x40 0x91', 'ppu.tick 20000']))
+    # register writes themselves request nothing, LCD on or off (IF is read straight after each write)
+    nwr = 12 if tier == 'quick' else 150
+    for i in range(nwr):
+        lines = []
+        if i % 2 == 0:
+            lines += ['ppu.tick %d' % rng.randrange(0, 3000), 'ppu.w 0x40 0x11']
+        for _ in range(rng.randrange(4, 12)):
+            r = rng.random()
+            if r < 0.5:
+                lines.append('ppu.wi 0x41 %d' % rng.choice([0x08, 0x10, 0x20, 0x40, 0x78, 0, rng.randrange(256)]))
+            elif r < 0.7:
+                lines.append('ppu.wi 0x45 %d' % rng.choice([0, 1, 143, 144, 153, rng.randrange(160)]))
+            elif r < 0.85:
+                lines.append('ppu.wi 0x40 %d' % (rng.choice([0x80, 0x00]) | 0x11))
+            else:
+                lines.append('ppu.wi 0x41 0')
+            lines.append('ppu.tick %d' % rng.choice([0, 1, 2, 20, 43, 63, 114, rng.randrange(1, 18000)]))
+        cases.append(('wr%d' % i, lines))
     info = dict(exhaustive=False,
-                input_distribution=dict(single_source_cases=4, lyc_values=len(lycs), schedules=nsched,
+                input_distribution=dict(register_write_cases=nwr, single_source_cases=4, lyc_values=len(lycs), schedules=nsched,
                                         combinations=ncombo,
                                         cycles_total=sum(int(l.split()[1]) for c in cases for l in c[1]
                                                          if l.startswith('ppu.tick'))),
@@ -112,6 +130,10 @@ def spec_check(lines):
         if l.startswith('w '):
             _, r, v = l.split()
             lcd.write(int(r), int(v))
+        elif l.startswith('I '):
+            if int(l.split()[1]) != 0:
+                return ('a register write at cycle %d of the case (LCD %s) requested interrupts (IF bits %s): the '
+                        'statement allows requests only at the listed instants' % (cyc, 'on' if lcd.on else 'off', l.split()[1]))
         elif l.startswith('T'):
             for tok in l.split()[1:]:
                 t, n = tok.split('*')
